@@ -78,28 +78,49 @@ PROP = dict(
     prop_targets=["Properties/C05.vo"],
     cases=dict(quick=1500, thorough=10000),
     level="proof",
-    rule="each case = one run of ArcSwap under the controlled scheduler: graph family (path, cycle, clique, star, random x3 "
-         "densities, multigraph with parallel edges/unsorted rows, 2-row grid, signed/zero edge weights with self loops) x "
-         "3..8 vertices x 2..4 parts x vertex-weight family x max_imbalance (None / 0 / 0.05 / 0.25 / 0.5 / 1 / 3 / random) x "
-         "rayon pool 1..4 x scheduling policy (uniform, round-robin, adversarial = freeze workers inside lock/check/gain "
-         "windows, bursts); distinct = distinct (graph, weights, partition, pool, cap, recorded schedule); non-trivial = at "
-         "least two workers and at least one vertex moved",
+    rule="each case = one complete run of ArcSwap under the controlled scheduler (one SC interleaving, recorded as the global "
+         "event trace). First a systematic sweep: for a small base input every single preemption point (thorough: 3 bases, "
+         "every pair of points thinned to 1200 per base); then random cases: graph family (path, cycle, clique, star, random "
+         "x3 densities, multigraph with parallel edges/unsorted rows, 2-row grid, signed/zero edge weights with self loops) x "
+         "3..8 vertices x 2..4 parts (striped, blocks, one-sided, random) x 5 vertex-weight families x max_imbalance (None / 0 / "
+         "0.05 / 0.25 / 0.5 / 1 / 3 / 8 / random) x rayon pool 1..4 x scheduling policy (uniform, round-robin, adversarial = "
+         "workers frozen inside lock/check/gain windows, bursts, bounded preemption); distinct = distinct (graph, weights, "
+         "partition, pool, cap, recorded schedule); non-trivial = at least two workers and at least one vertex moved",
     class_names={0: "Ok, no move", 1: "Ok, moved", 2: "panic", 3: "hang", 4: "outside the contract", 5: "error"},
+    harness_timeout=2400,
     trusted_base=[
         "axioms: none (every theorem of Properties/C05.v is closed under the global context)",
-        "the controlled scheduler of harness/src/bin/c05.rs and the coupe_verif hooks of src/verif.rs (every shared access of "
-        "ArcSwap's workers goes through TracedBool/TracedUsize); the recorded trace is the run",
+        "the coupe_verif hooks of src/verif.rs (every shared access of ArcSwap's workers goes through TracedBool/TracedUsize) and "
+        "the controlled scheduler of harness/src/bin/c05.rs: the recorded trace is the run, one access at a time",
+        "tools/props_d/C05.py gen_arcswap (regex-level facts about arc_swap.rs / work_share.rs: statement order of make_move, "
+        "literals of the share, merge and exit test)",
     ],
     assumptions=[
-        "sequential consistency: the interleavings considered are those of the per-thread access sequences (the property says so)",
-        "i64 vertex weights >= 0 and i64 edge weights whose sums do not overflow; f64 vertex weights are not covered",
-        "symmetric adjacency (wt u v = wt v u), neighbour ids < n",
+        "sequential consistency: the runs considered are the interleavings of the per-thread access sequences (the property says so); "
+        "the hardware memory model (acquire/release lock, relaxed part ids) is not covered",
+        "i64 vertex weights >= 0 and i64 edge weights whose sums do not overflow and stay below 2^53 (the f64 share is then the exact "
+        "quotient; checked per run: a run where it is not is reported as a correspondence failure); f64 vertex weights are not covered",
+        "symmetric adjacency (as sets of neighbours and as summed weights), neighbour ids < n",
+        "the cap is trunc(ideal + max_imbalance * ideal) as computed in f64 by the code (cap_of); its relation to the real number is not proved",
+        "termination / fairness are not claimed (proved: no reachable state of the machine is stuck or panics)",
     ],
 )
 
 MANIFEST = dict(
-    text="ArcSwap as a small-step machine over its shared accesses (CAS, neighbour-lock reads, part reads, store, unlock).",
-    design_ref="DESIGN.md §7 C05",
-    note="Trusted: Coq kernel; hooks + controlled scheduler; SC interleavings only.",
-    technique="Coq proof (inductive invariants over schedules) + controlled-scheduler trace replay + certified checker",
+    text="ArcSwap as a small-step machine at the granularity of its shared accesses (CAS, one neighbour-lock read at a time, part "
+         "reads, store, unlock, the unprotected re-evaluation reads; passes chained by the weight merge). Proved in Coq, axiom-free, "
+         "for EVERY symmetric integer-weighted graph, number of workers, initial partition and schedule of any length: "
+         "C05_arcswap_mutex (no two workers past their neighbour check on equal/adjacent vertices), C05_arcswap_gain_exact (the "
+         "gain about to be stored is the cut delta in the current state), C05_arcswap_accounting (cut0 - cut = recorded gains >= 0, "
+         "valid ids, move_count >= relabelled), C05_arcswap_caps (every part <= max(input weight, cap), integer weights), "
+         "C05_arcswap_no_panic (no stuck or panicking state), C05_arcswap_safe / C05_replayed_run_safe (arc_swap's own "
+         "configuration; an accepted trace is a schedule). The Rust code is tied to the machine by a translator (statement order and "
+         "literals of make_move re-read on every run) and by replaying, event by event, the traces of 1.5k/10k runs under a "
+         "controlled scheduler (systematic preemption sweeps + random/adversarial policies); a certified checker judges each output.",
+    design_ref="DESIGN.md §7 C05; docs/C05.md",
+    note="Proof level holds for the model under sequentially consistent interleavings; model<->code is correspondence on explored "
+         "schedules + translator. Not covered: hardware memory model, f64 weights, weights above 2^53, termination. Known finding "
+         "(reported): unsigned weight types underflow `max_part_weight - pw` (debug panic / release: cap not enforced), stream "
+         "gated on known_findings.json class arcswap-unsigned-weights.",
+    technique="Coq proof (inductive invariants over schedules) + translator + controlled-scheduler trace replay + certified checker",
 )
